@@ -40,7 +40,8 @@ LEVEL_TEXT = ("Every combination of the container states photon {none, 2-D, 3-D}
               "product of 1 080 / 2 160 combinations per type for the fully specified detector and all <= 2-deviations "
               "from 'nothing' and 'everything' for the other property palettes; quick: <= 2 / <= 1 deviations), saved, "
               "loaded and compared field by field: geometry, environment, characteristics (also after changes through "
-              "the attribute setters) and every container with dtype, shape, values, coordinates and attributes.")
+              "the attribute setters) and every container with dtype, shape, values, coordinates and attributes."
+              " Part savemodel runs the save_detector model inside pipelines of 1-3 readouts (the file must exist and read back as the running detector of that step); the /data node of a result must show processed data loaded by load_detector.")
 LEVEL_NOTE = ("Bounded: detector 2x3, palettes of 4 (APD: 9) property sets, one payload per container state (rotated by "
               "VERIF_SEED). HDF5 is exercised only when h5py imports (recorded in the evidence as formats / "
               "h5py_available). Trusted: numpy / xarray / pandas equality of plain values, the asdf library. Derived "
